@@ -103,7 +103,7 @@ def run(prop, tier, seed):
         # 4. beyond the property: the intermediate quantities the library exposes (effective values and macro vector of v4, impact /
         #    exploitability sub-scores of v3, impact equations of v2, value descriptions) against Internals.tla; disagreements are
         #    notes (the property is about the scores), but they show *where* a score goes wrong
-        iitems = [dict(it, op="internals") for it in items[::(3 if tier == "quick" else 1)]]
+        iitems = [dict(it, op="internals") for it in items[::(3 if tier == "quick" else max(1, len(items) // 50000))]]
         iev = record_events(iitems, work, name="internals")
         ip = os.path.join(work, "internals.json")
         json.dump(iev, open(ip, "w"), separators=(",", ":"))
